@@ -14,7 +14,9 @@ import random
 from harness import opsreplay, par, schemagamma, tlc
 
 OPTS = [dict(indent=4), dict(indent=2, include_descriptions=False), dict(indent="\t", include_custom_schema_directives=True), dict(indent=2),
-        dict(indent=2, include_introspection=True)]
+        dict(indent=2, include_introspection=True),
+        # a white list of directive names, as list(schema.directives) gives it: it names the specified directives too
+        dict(indent=2, include_custom_schema_directives=["tag", "skip", "include", "deprecated"])]
 HIST_SDL = [
     '''
 directive @tag(n: Int) on FIELD_DEFINITION | OBJECT
@@ -52,7 +54,31 @@ type Other @tag {
 }
 extend type Other @tag(n: 7) { x: Int }
 ''',
+    # types that carry the conventional root names without being roots: an object type (which makes the schema definition
+    # necessary in the text) and an enum
+    '''
+schema { query: Query }
+type Query { m: Mutation  s(on: Subscription = ON): Int }
+type Mutation { x: Int }
+enum Subscription { ON OFF }
+''',
 ]
+
+
+def hist_schemas():
+    """The schemas of the history scenario: the SDL texts above plus a code-built schema whose custom scalar passes Python values
+    through (JSON-like), with defaults that are EQUAL as Python values but different GraphQL literals (true / 1 / 1.0, false / 0)."""
+    from py_gql import build_schema
+    from py_gql.schema import Argument, Field, Int, ObjectType, ScalarType, Schema
+    schemas = [build_schema(s) for s in HIST_SDL]
+    Any = ScalarType("Any", serialize=lambda v: v, parse=lambda v: v)
+    q = ObjectType("Query", [
+        Field("f", Int, [Argument("yes", Any, default_value=True), Argument("one", Any, default_value=1), Argument("onef", Any, default_value=1.0)]),
+        Field("g", Int, [Argument("zero", Any, default_value=0), Argument("no", Any, default_value=False), Argument("zerof", Any, default_value=0.0)])])
+    q2 = ObjectType("Query", [
+        Field("f", Int, [Argument("one", Any, default_value=1), Argument("yes", Any, default_value=True)]),
+        Field("g", Int, [Argument("no", Any, default_value=False), Argument("zero", Any, default_value=0)])])
+    return schemas + [Schema(q), Schema(q2)]
 
 
 def roundtrip(schema, opts, label, out, wit):
@@ -134,7 +160,7 @@ def _hist_child(args):
     """Runs in a process forked before anything was printed: returns the texts of one call sequence."""
     from py_gql import build_schema
     calls = args
-    schemas = [build_schema(s) for s in HIST_SDL]
+    schemas = hist_schemas()
     texts = []
     for i, o in calls:
         try:
@@ -174,13 +200,22 @@ def run(chk):
         for k, (what, wit) in out.items():
             chk.diverge(k, wit, what)
     # ---- B: history independence
-    calls = 3 if chk.quick else 4
-    cfg = tlc.cfg(constants={"NS": 2, "NO": len(OPTS), "MaxCalls": calls}, invariants=["Emit", "SameAsFirst"])
-    r = chk.tlc("GqlPrintHistory", cfg, tags=["PRN"], label="GqlPrintHistory calls<=%d" % calls)
-    if r.rc != 0:
-        raise tlc.TLCError("GqlPrintHistory: %s\n%s" % (r.violated, r.tail))
-    seqs = [[tuple(c) for c in s] for s in r.tagged("PRN")]
-    chk.count("print call sequences", len(seqs))
+    NS = len(HIST_SDL) + 2
+    seqs = []
+    for calls in ((2, 3) if chk.quick else (2, 3, 4)):
+        cfg = tlc.cfg(constants={"NS": NS, "NO": len(OPTS), "MaxCalls": calls}, invariants=["Emit", "SameAsFirst"])
+        r = chk.tlc("GqlPrintHistory", cfg, tags=["PRN"], label="GqlPrintHistory calls<=%d" % calls)
+        if r.rc != 0:
+            raise tlc.TLCError("GqlPrintHistory: %s\n%s" % (r.violated, r.tail))
+        part = [[tuple(c) for c in s] for s in r.tagged("PRN")]
+        chk.count("print call sequences of length %d (TLC, exhaustive)" % calls, len(part))
+        limit = None if calls == 2 else (1500 if chk.quick else (None if calls == 3 else 6000))
+        if limit is not None and len(part) > limit:       # every ordered pair of calls is replayed; longer histories are a seeded sample
+            rng.shuffle(part)
+            part = part[:limit]
+            chk.exhaustive = False
+        seqs += part
+    chk.count("print call sequences replayed (each in a fresh process)", len(seqs))
     ctx = mp.get_context("fork")
     with ctx.Pool(par.NPROC, maxtasksperchild=1) as pool:
         results = pool.map(_hist_child, seqs, chunksize=1)
@@ -202,6 +237,15 @@ def run(chk):
     for i, sdl in enumerate(HIST_SDL):
         for o in OPTS:
             roundtrip(build_schema(sdl), o, "history-schema-%d" % (i + 1), out, {"source": "history"})
+    # the code-built schemas: their texts at least parse and print every default as the literal of ITS value
+    for sch in hist_schemas()[len(HIST_SDL):]:
+        text = sch.to_string()
+        for f in sch.query_type.fields:
+            for a in f.arguments:
+                want = {True: "true", False: "false"}.get(a.default_value) if isinstance(a.default_value, bool) else repr(a.default_value)
+                if "%s: Any = %s" % (a.name, want) not in text:
+                    out.setdefault("sdl/default-literal/custom-scalar/%s" % type(a.default_value).__name__,
+                                   ["a default of a pass-through custom scalar is printed as another literal", {"argument": a.name, "value": repr(a.default_value), "text": text}])
     for k, (what, wit) in out.items():
         chk.diverge(k, wit, what)
     chk.sample({"call_sequence": seqs[len(seqs) // 2]})
